@@ -42,6 +42,9 @@ var plainSafe = func(s string) bool {
 	case "true", "false", "null", "yes", "no", "on", "off", "~":
 		return false
 	}
+	if plainTyped(s) {
+		return false
+	}
 	if _, err := fmt.Sscanf(s, "%f", new(float64)); err == nil {
 		return false
 	}
@@ -62,8 +65,24 @@ func (st *ystyle) scalar(n *ynode) string {
 	}
 }
 
+// a mapping key is looked up by its text: a key that would resolve to a number, a boolean, null or a date when written plain is
+// still that key (the VALUES of level lists are different: there the plain spelling is another YAML value, so they stay quoted)
 func (st *ystyle) key(k string) string {
+	if !plainSafe(k) && plainTyped(k) && st.g.coin(0.5) {
+		return k
+	}
 	return st.scalar(ystr(k))
+}
+
+var typedNames = []string{"1001", "007", "true", "null", "2024-01-15", "1e3", "0x1F", "3.14", "-5", "No"}
+
+func plainTyped(s string) bool {
+	for _, t := range typedNames {
+		if s == t {
+			return true
+		}
+	}
+	return false
 }
 
 func small(n *ynode) bool {
@@ -159,6 +178,7 @@ type treeCtx struct {
 	shuffle  bool
 	prefix   func() string // prefix to use for a compact IRI
 	extAlias string        // declared alias of the API-extension namespace ("" = only the built-in apiExt)
+	xsdAlias string        // declared alias of the XML Schema namespace ("" = only xsd)
 	// atoms (cardinality on one plain property) that are written as an embedded Rego constraint with the same meaning
 	regoAtoms map[int]bool
 }
@@ -233,7 +253,11 @@ func (c *treeCtx) atomConstraint(m *ynode, a Atom) {
 	case "lessThanProperty", "lessThanOrEqualsToProperty", "equalsToProperty", "disjointWithProperty", "moreThanProperty", "moreThanOrEqualsToProperty":
 		m.put(a.Kind, ystr(c.pathText(*a.Other)))
 	case "datatype":
-		m.put(a.Kind, ystr(compactDt(a.Dt)))
+		dt := compactDt(a.Dt)
+		if c.xsdAlias != "" && strings.HasPrefix(dt, "xsd.") && c.g.coin(0.6) {
+			dt = c.xsdAlias + "." + strings.TrimPrefix(dt, "xsd.")
+		}
+		m.put(a.Kind, ystr(dt))
 	case "pattern":
 		m.put(a.Kind, ystr(a.patternText()))
 	case "uniqueValues":
@@ -369,6 +393,7 @@ func profileTree(g *G, p ProfileSpec, shuffle bool, prefixes []string) *ynode {
 	}
 	if shuffle && len(prefixes) > 1 {
 		c.extAlias = "my-ext_1"
+		c.xsdAlias = "xs-2"
 	}
 	root := ymap()
 	levels := map[string][]string{}
@@ -397,6 +422,9 @@ func profileTree(g *G, p ProfileSpec, shuffle bool, prefixes []string) *ynode {
 			pm.put("xsd", ystr("http://www.w3.org/2001/XMLSchema#"))
 			if c.extAlias != "" {
 				pm.put(c.extAlias, ystr(ApiExtNS))
+			}
+			if c.xsdAlias != "" {
+				pm.put(c.xsdAlias, ystr("http://www.w3.org/2001/XMLSchema#"))
 			}
 			root.put("prefixes", pm)
 		case "validations":
@@ -483,6 +511,15 @@ func genC15(g *G, n int, out io.Writer) {
 		}
 		for k := range base.Validations {
 			base.Validations[k].Level = []string{"violation", "warning", "info"}[g.n(3)]
+		}
+		if i%4 == 1 {
+			// validation names that YAML would read as a number, a boolean, null or a date when a KEY is written without quotes
+			off := g.n(len(typedNames))
+			for k := range base.Validations {
+				if k < len(typedNames) {
+					base.Validations[k].Name = typedNames[(off+k)%len(typedNames)]
+				}
+			}
 		}
 		spec := ProfileSpec{Name: fmt.Sprintf("c15_%d", i), Atoms: base.Atoms, Paths: base.Paths, Validations: base.Validations}
 		if g.coin(0.3) {
